@@ -670,19 +670,20 @@ BACKEND_FUNCS = {
 
 
 @st.composite
-def _dimensionless_arg(draw, lo, hi, pair=None):
+def _dimensionless_arg(draw, lo, hi, pair=None, x=None):
     """{"mag", "units", "t"}: a quantity divided by a compatible target; mag is chosen so that the simplified
-    number lies in [lo, hi] (the reference value is recomputed from mag, not taken from here)."""
+    number lies in [lo, hi] (or is the given x; the reference value is recomputed from mag, not taken from here)."""
     if pair is None:
         units = draw(G.unit_products(1, 2, 2))
         t = draw(G.targets_for(units, split=False, padding=False))
     else:
         units, t = pair["units"], pair["t"]
-    if lo > 0:
-        x = float("%de%d" % (draw(st.integers(1, 999)), draw(st.integers(-3, 3))))
-    else:
-        x = draw(st.integers(-1000, 1000)) / 1000.0 * hi
-    x = min(max(x, lo), hi)
+    if x is None:
+        if lo > 0:
+            x = float("%de%d" % (draw(st.integers(1, 999)), draw(st.integers(-3, 3))))
+        else:
+            x = draw(st.integers(-1000, 1000)) / 1000.0 * hi
+        x = min(max(x, lo), hi)
     mag = float(Fraction(x) * G.target_factor(t) / G.factor(units))
     return {"mag": mag, "units": units, "t": t}
 
@@ -696,9 +697,91 @@ def _dimensionless_args(draw, lo, hi, form, n):
     return out
 
 
+# -- functions of several positional arguments ----------------------------------------------------------------
+# The wrapper promises that *every* positional argument is made unitless (and refused when a dimension is left
+# over).  name -> argument value classes, one per position: ("pos", lo, hi) = positive, log grid; ("sym", hi) =
+# non-zero, either sign, |x| <= hi; "fmod" = (x, y) with x = +-(k + frac) * |y| so that the quotient is not near
+# an integer (the function is discontinuous there).
+
+MULTI = {
+    "pow": [("pos", 0.1, 10.0), ("sym", 5.0)],
+    "atan2": [("sym", 100.0), ("sym", 100.0)],
+    "hypot": [("sym", 100.0), ("sym", 100.0)],
+    "hypot3": [("sym", 100.0), ("sym", 100.0), ("sym", 100.0)],
+    "fmod": "fmod",
+    "copysign": [("sym", 100.0), ("sym", 100.0)],
+    "log_base": [("pos", 1e-3, 1e3), ("pos", 2.0, 1e3)],
+    "logaddexp": [("sym", 30.0), ("sym", 30.0)],
+    "logaddexp2": [("sym", 30.0), ("sym", 30.0)],
+    "maximum": [("sym", 100.0), ("sym", 100.0)],
+    "minimum": [("sym", 100.0), ("sym", 100.0)],
+}
+MULTI_ATTR = {"math": {"pow": "pow", "atan2": "atan2", "hypot": "hypot", "hypot3": "hypot", "fmod": "fmod",
+                       "copysign": "copysign", "log_base": "log"},
+              "numpy": {"pow": "power", "atan2": "arctan2", "hypot": "hypot", "fmod": "fmod", "copysign": "copysign",
+                        "logaddexp": "logaddexp", "logaddexp2": "logaddexp2", "maximum": "maximum",
+                        "minimum": "minimum"}}
+MULTI_FUNCS = {be: sorted(d, key=list(MULTI).index) for be, d in MULTI_ATTR.items()}
+
+
+@st.composite
+def _value(draw, spec):
+    if spec[0] == "pos":
+        lo, hi = spec[1], spec[2]
+        e = draw(st.integers(math.floor(math.log10(lo)), math.ceil(math.log10(hi)) - 1))
+        return min(max(float("%de%d" % (draw(st.integers(10, 99)), e - 1)), lo), hi)
+    k = draw(st.integers(-1000, 1000)) or 1000
+    return k / 1000.0 * spec[1]
+
+
+@st.composite
+def _multi_values(draw, fn):
+    """One value per argument position."""
+    spec = MULTI[fn]
+    if spec == "fmod":
+        y = draw(_value(("sym", 100.0)))
+        k = draw(st.integers(0, 40))
+        frac = draw(st.sampled_from([0.5, 0.25, 0.75, 0.125, 0.875]))
+        sign = draw(st.sampled_from([1.0, -1.0]))
+        return [sign * (k + frac) * abs(y), y]
+    return [draw(_value(sp)) for sp in spec]
+
+
+@st.composite
+def multi_backend_cases(draw, be):
+    """Backend(be).f(a0, a1[, a2]): every position is either plain numbers or a quantity that is dimensionless by
+    cancellation (at least one position is); in the `dimensional` variant one position - any - keeps a dimension."""
+    fn = draw(st.sampled_from(MULTI_FUNCS[be]))
+    form = "scalar" if be == "math" else draw(st.sampled_from(["scalar", "list", "qarray"]))
+    n = 1 if form == "scalar" else draw(st.integers(1, 3))
+    values = [draw(_multi_values(fn)) for _ in range(n)]          # n rows of `arity` values
+    arity = len(values[0])
+    # which positions carry units: shrinks towards "only the last one", the class a first-argument-only wrapper misses
+    mask = draw(st.sampled_from([m for m in range(1, 2 ** arity)]))
+    margs = []
+    for p in range(arity):
+        if (mask >> (arity - 1 - p)) & 1:
+            elems, first = [], None
+            for row in values:
+                a = draw(_dimensionless_arg(0, 0, pair=first if form == "qarray" else None, x=row[p]))
+                first = first or a
+                elems.append(a)
+            margs.append({"kind": "q", "elems": elems})
+        else:
+            margs.append({"kind": "p", "elems": [{"x": row[p]} for row in values]})
+    case = {"be": be, "fn": fn, "form": form, "margs": margs, "dimensional": draw(st.integers(0, 9)) >= 6}
+    if case["dimensional"]:
+        d = draw(st.sampled_from(G.DIMS))
+        case["extra"] = [draw(st.sampled_from(G.BASE_UNITS[d])), draw(st.sampled_from([1, -1]))]
+        case["extra_pos"] = arity - 1 - draw(st.integers(0, arity - 1))
+    return case
+
+
 @st.composite
 def backend_cases(draw):
     be = draw(st.sampled_from(["math", "numpy", "pnp"]))
+    if be != "pnp" and draw(st.integers(0, 9)) >= 6:
+        return draw(multi_backend_cases(be))
     fn = draw(st.sampled_from(BACKEND_FUNCS[be]))
     two = fn in ("logaddexp", "logaddexp2")
     lo, hi = (-30.0, 30.0) if two else (FUNCS[fn]["lo"], FUNCS[fn]["hi"])
@@ -736,7 +819,118 @@ def _build_args(args, form, extra=None):
     return q
 
 
+def _build_plain(elems, form, extra=None):
+    """Plain numbers in the given form; with `extra` the (last) number is multiplied by that unit."""
+    import numpy as np
+    xs = [e["x"] for e in elems]
+    if form == "scalar":
+        return xs[0] if extra is None else xs[0] * G.pq_unit([extra])
+    if form == "list":
+        return xs if extra is None else xs[:-1] + [xs[-1] * G.pq_unit([extra])]
+    arr = np.array(xs, dtype=float)
+    return arr if extra is None else arr * G.pq_unit([extra])
+
+
+def _fmod_exact(x, y):
+    """C fmod over Fractions: x - trunc(x / y) * y (sign of x); also returns the fractional part of |x / y|."""
+    q = abs(x) / abs(y)
+    k = q.numerator // q.denominator
+    r = abs(x) - k * abs(y)
+    return (r if x >= 0 else -r), q - k
+
+
+def _multi_reference(fn, xs, eps):
+    """(reference value, absolute tolerance) of f(*xs) for exact rational arguments xs that chempy only knows to a
+    relative accuracy eps each: first-order propagation sum_i |x_i| |df/dx_i| eps plus eps |f| for f's own rounding.
+    Returns None where the result is not judged."""
+    x = [float(v) for v in xs]
+    if fn == "pow":
+        ref = x[0] ** x[1]                                         # d/dx: y x**(y-1); d/dy: ln(x) x**y
+        return ref, eps * abs(ref) * (1 + abs(x[1]) + abs(x[1] * math.log(x[0])))
+    if fn == "atan2":
+        ref = math.atan2(x[0], x[1])                               # |x dy - y dx| / (x2 + y2) <= eps
+        return ref, eps * (abs(ref) + 1)
+    if fn in ("hypot", "hypot3"):
+        ref = math.sqrt(sum(v * v for v in x))                     # homogeneous of degree 1
+        return ref, 2 * eps * ref
+    if fn == "fmod":
+        r, frac = _fmod_exact(xs[0], xs[1])
+        if not (Fraction(1, 20) <= frac <= Fraction(19, 20)):
+            return None                                            # next to a jump of the function
+        return float(r), eps * (2 * abs(x[0]) + abs(x[1]))         # x e1 - k y e2 with k |y| <= |x|
+    if fn == "copysign":
+        return math.copysign(abs(x[0]), x[1]), eps * abs(x[0])
+    if fn == "log_base":
+        lb = math.log(x[1])
+        ref = math.log(x[0]) / lb                                  # d/dx: 1/(x ln b); d/db: -ln x/(b ln(b)**2)
+        return ref, eps * (abs(ref) + (1 + abs(ref)) / abs(lb))
+    if fn in ("logaddexp", "logaddexp2"):
+        base = math.e if fn == "logaddexp" else 2.0
+        m = max(x)
+        ref = m + math.log(base ** (x[0] - m) + base ** (x[1] - m), base)
+        return ref, eps * (abs(x[0]) + abs(x[1]) + abs(ref)) + 1e-15     # |d/dx| + |d/dy| = 1
+    if fn in ("maximum", "minimum"):
+        return (max(x) if fn == "maximum" else min(x)), eps * (abs(x[0]) + abs(x[1]))
+    raise ValueError(fn)
+
+
+def check_backend_multi(case, ctx):
+    import numpy as np
+    cu = _cu()
+    be, fn, form, margs = case["be"], case["fn"], case["form"], case["margs"]
+    arity = len(margs)
+    qpos = "".join("q" if m["kind"] == "q" else "p" for m in margs)
+    ctx.label("be=" + be, "fn=" + fn, "form=" + form, "arity=%d" % arity, "positions=" + qpos)
+    qel = [a for m in margs if m["kind"] == "q" for a in m["elems"]]
+    allu = [u for a in qel for u in a["units"]] + [u for a in qel for u in a["t"]["units"]]
+    later = any(m["kind"] == "q" and any(G.ref_in({"mag": a["mag"], "units": a["units"]}, a["t"]) != Fraction(a["mag"])
+                                         for a in m["elems"]) for m in margs[1:])
+    if later:
+        ctx.label("later_position_rescaled")
+    ctx.nontrivial(G.has_prefix(allu) and later)
+    func = getattr(cu.Backend(be), MULTI_ATTR[be][fn])
+
+    def build(extra_pos=None):
+        out = []
+        for p, m in enumerate(margs):
+            extra = case["extra"] if p == extra_pos else None
+            out.append(_build_args(m["elems"], form, extra) if m["kind"] == "q" else _build_plain(m["elems"], form, extra))
+        return out
+    if case.get("dimensional"):
+        ctx.label("dimensional_argument", "extra_pos=%d" % case["extra_pos"])
+        got = sut(func, *build(case["extra_pos"]))
+        if not is_err(got):
+            ctx.fail("dimensional_argument_accepted", returned=repr(got)[:200], position=case["extra_pos"])
+        return
+    n = len(margs[0]["elems"])
+    rows = [[G.ref_in({"mag": a["mag"], "units": a["units"]}, a["t"]) if m["kind"] == "q" else Fraction(a["x"])
+             for m in margs for a in [m["elems"][i]]] for i in range(n)]
+    unc = sum(max(G.rel_unc(a["units"]) + G.rel_unc(a["t"]["units"]) for a in m["elems"]) for m in margs if m["kind"] == "q")
+    got = sut(func, *build())
+    if is_err(got):
+        ctx.fail("dimensionless_argument_rejected", error=repr(got))
+        return
+    if hasattr(got, "dimensionality"):
+        ctx.fail("result_carries_unit", got=repr(got)[:100])
+        return
+    gl = np.asarray(got, dtype=float).ravel().tolist()
+    if len(gl) != n:
+        ctx.fail("result_length", got=len(gl), expected=n)
+        return
+    for i, xs in enumerate(rows):
+        rt = _multi_reference(fn, xs, TOL + unc)
+        if rt is None:
+            ctx.label("near_discontinuity:not_judged")
+            continue
+        ref, tol = rt
+        if not _finite(gl[i]) or abs(gl[i] - ref) > tol:
+            ctx.fail("function_value", index=i, got=gl[i], expected=ref, x=[float(v) for v in xs], positions=qpos)
+            return
+
+
 def check_backend(case, ctx):
+    if "margs" in case:
+        return check_backend_multi(case, ctx)
     cu = _cu()
     be, fn, form = case["be"], case["fn"], case["form"]
     ctx.label("be=" + be, "fn=" + fn, "form=" + form)
@@ -1328,7 +1522,10 @@ SUBCHECKS = [
                   "s ms min h, A mA, K mK, mol mmol) with optional scale: to -> from -> to", tolerances={"rel": TOL}),
     SubCheck("backend", check_backend, strategy=backend_cases(), quick=900, thorough=60000,
              rule="Backend('math'|'numpy').f and patched_numpy.f on q/t with dim(q)=dim(t) (scalar, list, array) = f of "
-                  "the exact ratio; an argument with a left-over dimension must raise",
+                  "the exact ratio; an argument with a left-over dimension must raise.  40 % of the Backend cases: "
+                  "functions of 2-3 positional arguments (pow/power, atan2/arctan2, hypot, fmod, copysign, log(x, base), "
+                  "logaddexp, logaddexp2, maximum, minimum) with the unit-carrying ratio in any non-empty subset of the "
+                  "positions (plain numbers elsewhere) and the left-over dimension in any one position",
              tolerances={"rel_on_argument": TOL}),
     SubCheck("allclose", check_allclose, strategy=allclose_cases(), quick=500, thorough=30000,
              rule="b_i = a_i + theta_i*(rtol*|a_i| + atol) in other units, theta in {0, +-.25, +-.5, +-4, 100}"),
